@@ -183,11 +183,20 @@ def _worker_run(args):
     except Exception as e:  # noqa: BLE001
         return {"index": index, "error": "generator: %s: %s\n%s" % (type(e).__name__, e, traceback.format_exc()[-800:])}
     case["seed"], case["index"] = seed, index
+    import signal
+
+    def _alarm(signum, frame):
+        raise TimeoutError("case exceeded the per-case time limit")
+
+    signal.signal(signal.SIGALRM, _alarm)
+    signal.alarm(int(getattr(prop, "CASE_TIMEOUT_S", 120)))
     try:
         r = run_case(prop, case, _W["model"])
     except Exception as e:  # noqa: BLE001
         r = CaseResult()
         r.error = "%s: %s" % (type(e).__name__, e)
+    finally:
+        signal.alarm(0)
     if r.error and "driver died" in r.error:
         import execs
 
